@@ -251,6 +251,23 @@ def worlds():
     W["sta-mw"] = (sta_mw, {"sets": [("sta", "stat_lower", 0.1), ("sta", "change_detector__bandwidth", 3), ("inner", "threshold_scale", 0.5)],
                             "data": ("A", "Ap")})
 
+    # a narrow menu explored DEEPER (fit / predict of the anomaliser, re-configuration of the wrapped detector through the
+    # object the caller still holds and through the anomaliser): histories such as fit(A), inner.set_params(...), fit(Ap),
+    # predict(Ap) need four and more steps
+    def sta_refit():
+        inner = cd.MovingWindow(bandwidth=2, threshold_scale=0.2)
+        return {"inner": inner, "sta": ad.StatThresholdAnomaliser(inner, stat=np.median, stat_lower=1.0, stat_upper=3.0)}
+
+    W["sta-refit"] = (sta_refit, {"sets": [("inner", "bandwidth", 3), ("sta", "change_detector__threshold_scale", 0.05), ("sta", "stat_lower", 0.1)],
+                                  "data": ("A", "Ap"), "no_events": ("inner",), "only": ("fit", "predict", "set"), "depth": (5, 6)})
+
+    def pelt_refit():
+        c = co.L2Cost()
+        return {"c": c, "pelt": cd.PELT(c, penalty_scale=0.05, min_segment_length=1)}
+
+    W["pelt-refit"] = (pelt_refit, {"sets": [("c", "param", 1.0), ("pelt", "min_segment_length", 2), ("pelt", "cost__param", 2.0, "L2Cost")],
+                                    "data": ("A", "A+U"), "no_events": ("c",), "only": ("fit", "predict", "tscores", "set"), "depth": (5, 6)})
+
     # scorers alone
     W["l2cost"] = (lambda: {"s": co.L2Cost()}, {"sets": [("s", "param", 1.0), ("s", "param", None)], "data": ("A", "Ap", "B"), "deep": True})
     W["gvcost"] = (lambda: {"s": co.GaussianVarCost()}, {"sets": [("s", "param", (0.0, 2.0)), ("s", "param", None)], "data": ("A", "Ap", "B"), "deep": True})
@@ -375,6 +392,8 @@ def events_for(objs, cfg):
         ev.append(("set",) + tuple(st))
     if cfg.get("mutable"):
         ev.append(("mutate", "__M__"))
+    if cfg.get("only"):
+        ev = [e for e in ev if e[0] in cfg["only"]]
     return ev
 
 
@@ -831,6 +850,9 @@ BIG = ("shared-cost", "sta", "saving-shared", "mw-cbs-shared", "sta-mw", "two-pe
 
 def depth_for(wname, tier):
     deep = worlds()[wname][1].get("deep", False)
+    own = worlds()[wname][1].get("depth")
+    if own:
+        return own[0] if tier == "quick" else own[1]
     if tier == "quick":
         return 3 if wname in BIG else 4
     return 6 if deep else (4 if wname in BIG else 5)
